@@ -3,6 +3,7 @@ package gengorums
 import (
 	"bytes"
 	"fmt"
+	"log"
 	"strings"
 	"text/template"
 
@@ -171,7 +172,7 @@ func mapInternalOutType(g *protogen.GeneratedFile, services []*protogen.Service)
 		if hasMethodOption(method, callTypesWithInternal...) {
 			out := out(g, method)
 			intOut := internalOut(out)
-			s[intOut] = out
+			setGeneratedType(s, intOut, out, method)
 		}
 	})
 }
@@ -181,7 +182,7 @@ func mapAsyncOutType(g *protogen.GeneratedFile, services []*protogen.Service) (s
 		if hasAllMethodOption(method, gorums.E_Quorumcall, gorums.E_Async) {
 			out := customOut(g, method)
 			futOut := outType(method, out)
-			s[futOut] = out
+			setGeneratedType(s, futOut, out, method)
 		}
 	})
 }
@@ -191,9 +192,20 @@ func mapCorrectableOutType(g *protogen.GeneratedFile, services []*protogen.Servi
 		if hasMethodOption(method, gorums.E_Correctable) {
 			out := customOut(g, method)
 			corrOut := outType(method, out)
-			s[corrOut] = out
+			setGeneratedType(s, corrOut, out, method)
 		}
 	})
+}
+
+// setGeneratedType records that the type named generated is to be generated for the result type out.
+// The generated type is named after out without its package, so result types with the same name from
+// two packages (a local Empty and emptypb.Empty) would share one generated type, whose Get converts
+// to only one of them; such a file is rejected.
+func setGeneratedType(s map[string]string, generated, out string, method *protogen.Method) {
+	if other, ok := s[generated]; ok && other != out {
+		log.Fatalf("method %v: the result types %s and %s of this service would both use the generated type %s; use a custom_return_type or distinct message names.\n", method.Desc.FullName(), other, out, generated)
+	}
+	s[generated] = out
 }
 
 // field derives an embedded field name from the given typeName.
